@@ -115,6 +115,60 @@ func (e Env) Sum(xs ...int) int {
 func (e Env) Half(f float64) float64 { return f / 2 }
 func (e Env) Len2(xs []int) int      { return len(xs) * 2 }
 
+// Pure functions (results depend on the arguments only): candidates for ConstExpr marking (C02).
+// Some of them fail for some arguments.
+func (e Env) Sq(n int) int { return n * n }
+func (e Env) Div(a, b int) int {
+	if b == 0 {
+		panic("Div: division by zero")
+	}
+	if b == -1 {
+		return -a
+	}
+	return a / b
+}
+func (e Env) Rep(s string, n int) string {
+	if n < 0 {
+		panic("Rep: negative count")
+	}
+	if n > 6 {
+		n = 6
+	}
+	return strings.Repeat(s, n)
+}
+func (e Env) Neg(f float64) float64 { return -f }
+func (e Env) IsPos(n int) bool      { return n > 0 }
+func (e Env) Pick(xs []int, i int) int {
+	if i < 0 || i >= len(xs) {
+		panic("Pick: index out of range")
+	}
+	return xs[i]
+}
+func (e Env) Join(parts ...string) string { return strings.Join(parts, "+") }
+
+// Coalesce has the fast-call shape func(...interface{}) interface{}: the first non-nil argument.
+func (e Env) Coalesce(xs ...interface{}) interface{} {
+	for _, x := range xs {
+		if x != nil {
+			return x
+		}
+	}
+	return nil
+}
+
+// Overload candidates on built-in operand types (C02: operator patching happens before the optimiser).
+func (e Env) JoinSp(a, b string) string { return a + " " + b }
+func (e Env) SafeDiv(a, b int) int {
+	if b == 0 {
+		return 0
+	}
+	if b == -1 {
+		return -a
+	}
+	return a / b
+}
+func (e Env) SubF(a, b float64) float64 { return a - b + 0.25 }
+
 func (e Env) logf(format string, a ...interface{}) {
 	if e.log != nil {
 		*e.log = append(*e.log, fmt.Sprintf(format, a...))
@@ -177,22 +231,70 @@ func (s *EnvSpec) AnyTy() *Ty {
 
 // Build makes a fresh, fully independent environment value (deep copy) that logs into log.
 func (s *EnvSpec) Build(log *[]string) Env {
-	b, err := json.Marshal(s.Env)
-	must(err)
-	var e Env
-	must(json.Unmarshal(b, &e))
-	// JSON turns the ints of MA into float64: restore.
-	for k, v := range e.MA {
-		if f, ok := v.(float64); ok {
-			e.MA[k] = int(f)
-		}
-	}
+	e := deepCopy(reflect.ValueOf(s.Env)).Interface().(Env)
 	e.Any = s.AnyV.Value()
 	e.log = log
 	e.Inc = func(i int) int { return i + 1 }
 	e.Cat = func(a, b string) string { return a + "|" + b }
 	e.Var = func(xs ...interface{}) interface{} { return len(xs) }
 	return e
+}
+
+// deepCopy clones a value so that no slice, map or pointer is shared with the original (func values and
+// unexported fields are dropped).
+func deepCopy(v reflect.Value) reflect.Value {
+	switch v.Kind() {
+	case reflect.Ptr:
+		if v.IsNil() {
+			return v
+		}
+		c := reflect.New(v.Type().Elem())
+		c.Elem().Set(deepCopy(v.Elem()))
+		return c
+	case reflect.Interface:
+		if v.IsNil() {
+			return v
+		}
+		c := reflect.New(v.Type()).Elem()
+		c.Set(deepCopy(v.Elem()))
+		return c
+	case reflect.Slice:
+		if v.IsNil() {
+			return v
+		}
+		c := reflect.MakeSlice(v.Type(), v.Len(), v.Len())
+		for i := 0; i < v.Len(); i++ {
+			c.Index(i).Set(deepCopy(v.Index(i)))
+		}
+		return c
+	case reflect.Array:
+		c := reflect.New(v.Type()).Elem()
+		for i := 0; i < v.Len(); i++ {
+			c.Index(i).Set(deepCopy(v.Index(i)))
+		}
+		return c
+	case reflect.Map:
+		if v.IsNil() {
+			return v
+		}
+		c := reflect.MakeMapWithSize(v.Type(), v.Len())
+		it := v.MapRange()
+		for it.Next() {
+			c.SetMapIndex(it.Key(), deepCopy(it.Value()))
+		}
+		return c
+	case reflect.Struct:
+		c := reflect.New(v.Type()).Elem()
+		for i := 0; i < v.NumField(); i++ {
+			f := v.Type().Field(i)
+			if f.PkgPath != "" || v.Field(i).Kind() == reflect.Func {
+				continue
+			}
+			c.Field(i).Set(deepCopy(v.Field(i)))
+		}
+		return c
+	}
+	return v
 }
 
 func (s *EnvSpec) UnmarshalJSON(b []byte) error {
